@@ -37,7 +37,7 @@ func checkC04(c *Ctx) {
 
 	// ---- R1 -------------------------------------------------------------------------
 	nTrue, nFalse := 0, 0
-	for _, b := range vf.Blocks {
+	for _, b := range liveBlocks(vf) {
 		ret, ok := b.Instrs[len(b.Instrs)-1].(*ssa.Return)
 		if !ok || b == vf.Recover {
 			continue
@@ -115,7 +115,7 @@ func checkC04(c *Ctx) {
 				c.check(m.claimLit(gs, true), "R2", "ValidateToken validates only for a leader", in, "guards %s", fmtLits(gs))
 			}
 		})
-		for _, b := range api.Blocks {
+		for _, b := range liveBlocks(api) {
 			ret, ok := b.Instrs[len(b.Instrs)-1].(*ssa.Return)
 			if !ok || b == api.Recover {
 				continue
@@ -175,7 +175,7 @@ func checkC04(c *Ctx) {
 	// ---- R4 -------------------------------------------------------------------------
 	if od := m.method("ValidateTokenOrDemote"); od != nil {
 		api := m.method("ValidateToken")
-		for _, b := range od.Blocks {
+		for _, b := range liveBlocks(od) {
 			ret, ok := b.Instrs[len(b.Instrs)-1].(*ssa.Return)
 			if !ok || b == od.Recover {
 				continue
